@@ -1141,6 +1141,12 @@ THEOREMS = [
     "C02Win.terminal_releases_all_toggle", "C02Win.dispose_releases_all_toggle",
     "C02Win.terminal_releases_all_time", "C02Win.dispose_releases_all_time",
     "C02Win.terminal_releases_all_time_or_count", "C02Win.dispose_releases_all_time_or_count",
+    "C02Win.release_iff_count", "C02Win.source_subscribed_iff_count",
+    "C02Win.release_iff_boundaries", "C02Win.source_subscribed_iff_boundaries",
+    "C02Win.release_iff_when", "C02Win.source_subscribed_iff_when",
+    "C02Win.release_iff_toggle", "C02Win.source_subscribed_iff_toggle",
+    "C02Win.release_iff_time", "C02Win.source_subscribed_iff_time",
+    "C02Win.release_iff_time_or_count", "C02Win.source_subscribed_iff_time_or_count",
     "C02Win.terminal_releases_all_group", "C02Win.dispose_releases_all_group", "C02Win.group_holder_blocks_release",
     "C02Win.fin_source_disposed_at_most_once", "C02Win.terminal_releases_all_fin_partial", "C02Win.dispose_releases_all_fin",
     "C02Win.using_releases_all", "C02Win.finally_action_releases_all",
@@ -1191,4 +1197,6 @@ LEVEL_NOTE = ("window_toggle/buffer_toggle: the full end-with-source statement i
               "that the schedule reaches all input when the fuel suffices is not proved (fuel is a driver artefact; the driver gives "
               "4*(events+horizon)+16). window_with_time_or_count has no closed form theorem (oracle only). when_mapper_raise_asis is an "
               "AsIs witness of the handler before repo fix c2c9edd. C02Win.* (release of all subscriptions) are built and audited with "
-              "this check. Assumed: static same-instant order of hot sources; integer time.")
+              "this check; C02Win.release_iff_* (underlying disposed iff outer stopped and no window subscriber attached) and "
+              "C02Win.source_subscribed_iff_* (on traces without a source terminal the source is subscribed iff not (outer stopped and last "
+              "subscriber gone)) give the release rule in both directions. Assumed: static same-instant order of hot sources; integer time.")
